@@ -85,6 +85,30 @@ def run(ck):
     c08 = importlib.import_module("checks.c08")
     asan_lines("solver", [c08.gen_case(rng, "c10p%d" % i, forced_roles=(r,))["line"] for i, r in enumerate(["pair0", "pair1", "pair0", "pair1"] * (1 if quick else 5))], wrap=True)
     asan_lines("init", [c13.gen_ini(rng)["line"] for _ in range(8 if quick else 80)] + [c13.gen_gate(rng)[0] for _ in range(10 if quick else 100)], wrap=True)
+    # coarse L-shapes and prisms: ball pivoting leaves holes at the re-entrant / sharp edges, and the hole filler creates new
+    # edges while it holds references into the edge list (its own random stream; run side by side)
+    rng_h = random.Random(ck.seed * 811 + 11); hole_lines = []
+    while len(hole_lines) < (48 if quick else 320):
+        c_ = c13.gen_ini(rng_h, force=rng_h.choice(["lshape", "lshape", "prism"]))
+        if c_["tri"] == 1 and c_["ratio"] >= 0.35:
+            hole_lines.append(c_["line"])
+    exe_ini = vlib.build_driver("init", wrap_clock=True, san=True)
+    from concurrent.futures import ThreadPoolExecutor
+    def one_ini(l):
+        try:
+            return l, vlib.run([exe_ini], input=l + "\n", timeout=1800, env=ASAN_ENV)
+        except subprocess.TimeoutExpired:
+            return l, None
+    with ThreadPoolExecutor(12) as ex_:
+        for l, r in ex_.map(one_ini, hole_lines):
+            nscen += 1; dist["init(coarse shapes, hole filling)"] = dist.get("init(coarse shapes, hole filling)", 0) + 1
+            if r is None:
+                continue
+            cl = classify(r.stderr)
+            if cl:
+                fails.append(("no_memory_error", cl, dict(driver="init", input=l[:100000], report=r.stderr[:8000]), "%s in %s (start-up of a coarse shape under AddressSanitizer/UBSan)" % (cl[0], cl[1])))
+            elif r.returncode < 0:
+                fails.append(("no_crash", ("signal", "init"), dict(driver="init", input=l[:100000], stderr=r.stderr[-3000:]), "driver init died with signal %d" % (-r.returncode)))
     asan_lines("divide", [c09.gen_div(rng, "c10d")["line"] for _ in range(5 if quick else 60)], wrap=True)
     # several cells dividing in one pass under 4 threads (the mothers finish in varying order): besides the sanitizer, every list
     # index a cell stores for later use as a subscript must be its position afterwards (a stale index is an access after erase
